@@ -108,6 +108,30 @@ Fixpoint compile_expr (G : genv) (ce : cenv) (e : expr) (p : pool) {struct e} : 
               | None => None end
           | None => None end
       | None => None end
+  | EArr es =>
+      (* codegen.c AST_ARRAY_LITERAL: the elements left to right, then ARR_LITERAL <element tag> <count> *)
+      let fix go (l : list expr) (p0 : pool) : option (list instr * pool) :=
+        match l with
+        | [] => Some ([], p0)
+        | a :: r => match compile_expr G ce a p0 with
+                    | Some (ca, p1) => match go r p1 with Some (cr, p2) => Some (ca ++ cr, p2) | None => None end
+                    | None => None end
+        end in
+      match go es p with
+      | Some (cel, p1) => Some (cel ++ [mk OP_ARR_LITERAL [TAG_INT_N; N.of_nat (length es)]], p1)
+      | None => None end
+  | EAt a i =>
+      (* compile_builtin_call "at": array, index, ARR_GET *)
+      match compile_expr G ce a p with
+      | Some (ca, p1) =>
+          match compile_expr G ce i p1 with
+          | Some (ci, p2) => Some (ca ++ ci ++ [mk OP_ARR_GET []], p2)
+          | None => None end
+      | None => None end
+  | ELen a =>
+      match compile_expr G ce a p with
+      | Some (ca, p1) => Some (ca ++ [mk OP_ARR_LEN []], p1)
+      | None => None end
   end.
 
 (* loop context: absolute offsets (within the function) of the loop top and of the loop end *)
